@@ -5,6 +5,9 @@ import numpy as np
 
 def f1dfloatduple(value):
     """Tuple of two floats (duple)"""
+    if isinstance(value, str):
+        # string representation, e.g. "(1.0, 2.0)" in configuration files
+        value = [vv for vv in value.strip("()[] ").split(",") if vv.strip()]
     if np.array(value).ndim != 1:
         raise ValueError(f"Value is not 1 dimensional, got {value}!")
     value = tuple(float(i) for i in value)
